@@ -121,7 +121,7 @@ Section T.
     ++ (if k_fac k && negb (k_fglobal k) && N.eqb c (k_fcls k) then [factory_def true] else []).
 
   Definition tC (cd : cdef) : cdef :=
-    {| c_name := c_name cd;
+    {| c_name := c_name cd; c_base := c_base cd;
        c_methods := map (fun d => tM (negb (is_skip (c_name cd) d)) d) (c_methods cd) ++ new_methods (c_name cd) |}.
 
   Definition tP (P : prog) : prog :=
@@ -167,21 +167,38 @@ Section T.
               | None => false
               end)).
 
+  Definition no_base (cd : cdef) : bool := match c_base cd with None => true | Some _ => false end.
+
+  (* [ok_c] includes: the class has no base class (the semantics has no inheritance) *)
+  Definition ok_cb (cd : cdef) : bool := ok_c cd && no_base cd.
+
   Definition side (P : prog) : bool :=
     fresh_ok P
-    && forallb ok_c (p_classes P)
+    && forallb ok_cb (p_classes P)
     && forallb (fun d => ok_body true (m_body d)) (p_funcs P)
     && forallb (ok_s true) (p_main P).
 End T.
 
-(* EncapsulateField.get_changes refuses when the getter or setter name is already an attribute of the class
-   (fix 72d97d7; in Obj the class attributes are its methods) *)
+(* `name in pyclass`: the class or one of its ancestors (single inheritance, fuel = number of classes + 1) defines a
+   method of that name (in Obj the class attributes considered are the methods) *)
+Fixpoint class_has (fuel : nat) (cs : list cdef) (c m : N) : bool :=
+  match fuel with
+  | O => false
+  | S n =>
+      match find_c cs c with
+      | None => false
+      | Some cd =>
+          negb (absent (c_methods cd) m)
+          || match c_base cd with Some b => class_has n cs b m | None => false end
+      end
+  end.
+
+(* EncapsulateField.get_changes refuses when the getter or setter name is already an attribute of the class, own or
+   INHERITED (fix 72d97d7: `accessor in defining_class`) *)
 Definition enc_refuses (k : cfg) (P : prog) : bool :=
   k_enc k &&
-  match find_c (p_classes P) (k_cls k) with
-  | Some cd => negb (absent (c_methods cd) (k_get k)) || negb (absent (c_methods cd) (k_set k))
-  | None => false
-  end.
+  (class_has (S (length (p_classes P))) (p_classes P) (k_cls k) (k_get k)
+   || class_has (S (length (p_classes P))) (p_classes P) (k_cls k) (k_set k)).
 
 Definition enc_cfg (augparen : bool) (cls fld get set skip self value : N) : cfg :=
   {| k_enc := true; k_cls := cls; k_fld := fld; k_get := get; k_set := set; k_skip := skip;
